@@ -56,13 +56,26 @@ package dagsync
 // channel is closed once and the distributor returns.
 // ASSUMED about other threads: a channel sent on addEventChan is open and not yet
 // registered (OnSyncFinished creates a new queue for every call).
-//@ spec func chansOK(l val) bool = forall(a, 0, len(l), l[a] != nil && !closed(l[a])) && forall(a, 0, len(l), forall(b, 0, a, l[a] != l[b]))
+//@ spec func chansOpen(l val) bool = forall(a, 0, len(l), l[a] != nil && !closed(l[a]))
+//@ spec func chansNot(l val, c val) bool = forall(a, 0, len(l), l[a] != c)
+//@ spec func chansDistinct(l val) bool = forall(a, 0, len(l), forall(b, 0, a, l[a] != l[b]))
 //@ func (*Subscriber).distributeEvents
 //@   property C14
 //@   requires subOK(s)
 //@   mayblock send:ch
-//@   at recv addEventChan: assume v != nil && !closed(v) && forall(a, 0, len(outEventsChans), outEventsChans[a] != v)
-//@   loop 1: invariant chansOK(outEventsChans)
-//@   loop 2: invariant chansOK(outEventsChans) && rangeindex < len(outEventsChans) && forall(a, 0, rangeindex + 1, closed(outEventsChans[a])) && forall(a, rangeindex + 1, len(outEventsChans), !closed(outEventsChans[a]))
-//@   loop 3: invariant chansOK(outEventsChans) && rangeindex < len(outEventsChans)
-//@   loop 4: invariant chansOK(outEventsChans) && rangeindex < len(outEventsChans) && forall(a, 0, rangeindex + 1, outEventsChans[a] != ch)
+//@   at recv addEventChan: assume v != nil && !closed(v) && v != s.inEvents && forall(a, 0, len(outEventsChans), outEventsChans[a] != v)
+//@   loop 1: iteration ghost n0 := len(outEventsChans)
+//@   loop 1: iteration ensures itercount("recv:inEvents") == 1 ==> len(outEventsChans) == n0
+//@   loop 1: iteration ensures itercount("recv:addEventChan") == 1 ==> len(outEventsChans) == n0 + 1 && itercount("close:ch") == 0
+//@   loop 1: iteration ghost removed := false
+//@   at call close#2: assert arg0 == ch && !removed
+//@   at call close#2: ghost removed := true
+//@   loop 1: iteration ensures itercount("recv:rmEventChan") == 1 ==> (!removed && len(outEventsChans) == n0) || (removed && len(outEventsChans) == n0 - 1 && chansNot(outEventsChans, ch))
+//@   loop 1: iteration ensures itercount("recv:rmEventChan") == 0 ==> !removed
+//@   loop 3: iteration ensures itercount("send:ch") == 1 && iterarg("send:ch", 0) == chanRef(outEventsChans[rangeindex]) && iterarg("send:ch", 1) == str(event.Cid.str) && iterarg("send:ch", 2) == str(event.PeerID) && iterarg("send:ch", 3) == event.Count
+//@   loop 1: invariant subOK(s) && chansNot(outEventsChans, s.inEvents)
+//@   loop 1: invariant chansOpen(outEventsChans)
+//@   loop 1: invariant chansDistinct(outEventsChans)
+//@   loop 2: invariant chansNot(outEventsChans, s.inEvents) && chansDistinct(outEventsChans) && rangeindex < len(outEventsChans) && forall(a, 0, len(outEventsChans), outEventsChans[a] != nil) && forall(a, 0, rangeindex + 1, closed(outEventsChans[a])) && forall(a, rangeindex + 1, len(outEventsChans), !closed(outEventsChans[a]))
+//@   loop 3: invariant subOK(s) && chansNot(outEventsChans, s.inEvents) && chansOpen(outEventsChans) && chansDistinct(outEventsChans) && rangeindex < len(outEventsChans)
+//@   loop 4: invariant subOK(s) && chansNot(outEventsChans, s.inEvents) && chansOpen(outEventsChans) && chansDistinct(outEventsChans) && rangeindex < len(outEventsChans) && forall(a, 0, rangeindex + 1, outEventsChans[a] != ch) && !removed && len(outEventsChans) == n0
